@@ -176,7 +176,22 @@ def run(ctx):
                 ctx.sample({"kind": kind, "input": inp, "configs": configs})
             if res and res != "trivial":
                 ctx.violation(res["detail"], res)
+    terminal_states_case(ctx)
     uml_mutants(ctx)
+
+
+def terminal_states_case(ctx):
+    """directed: several states that are only ever targets (Done / Failed / Cancelled / Paused), under six hash seeds"""
+    table = [["Run", "EvDone", "Done", "OnDone", "None"], ["Run", "EvFail", "Failed", "OnFail", "None"], ["Run", "EvCancel", "Cancelled", "None", "IsUser"],
+             ["Idle", "EvGo", "Run", "OnGo", "None"], ["Run", "EvPause", "Paused", "None", "None"]]
+    for kind in ("py", "cs", "cpp"):
+        inp = {"table": table, "iface_seed": 7, "name": "Job", "lang": kind, "usertags": {}}
+        configs = [CONFIGS[0]] + [("abs", h, "", None, None, "UTC") for h in (1, 2, 3, 5, 8)]
+        res = one_case(ctx, kind, inp, None, 0, configs)
+        ctx.case((kind, "terminal-states"), nontrivial=(res != "trivial"))
+        ctx.count("directed_terminal_states_" + kind)
+        if res and res != "trivial":
+            ctx.violation(res["detail"], res)
 
 
 def uml_mutants(ctx):
